@@ -324,6 +324,8 @@ func compute(lunar *Lunar, lunarYear *LunarYear) {
 	computeDay(lunar)
 	computeTime(lunar)
 	computeWeek(lunar)
+	// 八字对象在构造时就创建，避免多个协程共享同一个Lunar时在GetEightChar里并发写
+	lunar.eightChar = NewEightChar(lunar)
 }
 
 // GetGan @Deprecated: 该方法已废弃，请使用GetYearGan
